@@ -109,6 +109,31 @@ void h_clock(void) {
 #endif
 }
 
+/* base case ("started from reset"): from EVERY power-on state, one rising clock edge with reset asserted -- and already
+   the assertion of reset itself, the reset being asynchronous -- puts pc, areg, breg, oreg into the state the
+   instruction-set simulator's constructor establishes (SIM_INIT_*, read from hexsim.hpp on every run); releasing reset with
+   the clock low changes nothing, so the first clock after reset executes the instruction at the simulator's start address
+   from the simulator's start state (h_clock then applies). */
+void h_reset(void) {
+  power_on();
+  uint32_t cex_pc = P->pc_q, cex_areg = P->__PVT__areg_q, cex_breg = P->__PVT__breg_q, cex_oreg = P->__PVT__oreg_q;
+  uint32_t k = nondet_u32(); __CPROVER_assume(k < RTL_WORDS);
+  S.TOP.i_clk = 0; S.TOP.i_rst = 1; Vhex_eval_step(&S);      /* reset asserted, clock low (hextb's prologue) */
+  uint32_t old_k = M->memory_q[k];
+  S.TOP.i_clk = 1; Vhex_eval_step(&S);                       /* a rising edge under reset */
+  __CPROVER_assert(P->pc_q == SIM_INIT_pc && P->__PVT__areg_q == SIM_INIT_areg && P->__PVT__breg_q == SIM_INIT_breg && P->__PVT__oreg_q == SIM_INIT_oreg,
+                   "C03: reset puts pc, areg, breg and oreg into the simulator's start state");
+  __CPROVER_assert(M->memory_q[k] == old_k, "C03: no memory word changes on a clock edge under reset");
+  S.TOP.i_clk = 0; Vhex_eval_step(&S);
+  S.TOP.i_rst = 0; Vhex_eval_step(&S);                       /* reset released with the clock low */
+  __CPROVER_assert(P->pc_q == SIM_INIT_pc && P->__PVT__areg_q == SIM_INIT_areg && P->__PVT__breg_q == SIM_INIT_breg && P->__PVT__oreg_q == SIM_INIT_oreg && M->memory_q[k] == old_k,
+                   "C03: releasing reset keeps the start state");
+  __CPROVER_assert(M->__PVT__o_f_data == ((M->memory_q[SIM_INIT_pc >> 2] >> ((SIM_INIT_pc & 3) << 3)) & 0xFF), "C03: after reset the instruction at the simulator's start address is fetched");
+#ifdef CANARY
+  __CPROVER_assert(0, "canary: harness end reachable");
+#endif
+}
+
 void h_cover(void) {
   power_on();
   S.TOP.i_clk = 0; S.TOP.i_rst = 0;
@@ -130,7 +155,16 @@ void h_cover(void) {
 def build_unit(chk):
     text, info = vl2c.verilate(SOURCES, "hex", "Vhex", chk.out, chk.manifest, extra_args=["--trace"])
     pre = "#define VL_IDX(e, n) vl_idx((e), (n))\n#include <stdint.h>\nstatic inline uint32_t vl_idx(uint32_t e, uint32_t n) { __CPROVER_assert(e < n, \"RTL memory index below MEM_DEPTH\"); return e; }\n"
-    return chk.write("c03_unit.c", pre + text + HARNESS), info
+    # the simulator's start state: the constructor's initialisers of pc, areg, breg, oreg (hexsim.hpp)
+    import simx
+    items = dict(simx.ctor_items(chk.manifest))
+    init = ""
+    for r in ("pc", "areg", "breg", "oreg"):
+        v = items.get(r)
+        if v is None or not v.strip().isdigit():
+            raise hv.ExtractionError("hexsim constructor: initial value of %s not a literal (%r)" % (r, v))
+        init += "#define SIM_INIT_%s %su\n" % (r, v.strip())
+    return chk.write("c03_unit.c", pre + text + "\n" + init + HARNESS), info
 
 
 def native(chk):
@@ -148,6 +182,12 @@ def native(chk):
 
 
 def replay_state(exe, st):
+    if st.get("reset"):
+        rc, o, e, _ = hv.run([exe, "reset"] + [str(st[k]) for k in ("pc", "areg", "breg", "oreg")], timeout=120)
+        try:
+            return json.loads(o)
+        except Exception:
+            return {"ok": None, "error": (o + e)[-600:]}
     rc, o, e, _ = hv.run([exe, "replay"] + [str(st[k]) for k in ("pc", "areg", "breg", "oreg", "word", "ea", "data")], timeout=120)
     try:
         return json.loads(o)
@@ -177,6 +217,8 @@ def main(chk, replay_file):
     J = hv.Job
     jobs = [
         J("hex_clock.contract", unit, "h_clock", unwind=4, functions=["Vhex_eval_step and callees"], note="all register values x all memory contents x all defined bytes, within the stated range"),
+        J("reset.contract", unit, "h_reset", unwind=4, functions=["Vhex_eval_step and callees (reset)"], note="base case: every power-on state -> the simulator's constructor state"),
+        J("reset.canary", unit, "h_reset", unwind=4, defines=["CANARY"], kind="canary", checks=[]),
         J("hex_clock.canary", unit, "h_clock", unwind=4, defines=["CANARY"], kind="canary", checks=[]),
         J("hex_clock.cover", unit, "h_cover", unwind=4, kind="cover", cover=True, checks=[]),
     ]
@@ -214,6 +256,11 @@ def main(chk, replay_file):
                       "data": hv.parse_c_int(cex.get("cex_data", "0"))}
             except (KeyError, ValueError):
                 pass
+            if j.name.startswith("reset."):
+                try:
+                    st = {"reset": True, "pc": hv.parse_c_int(cex["cex_pc"]), "areg": hv.parse_c_int(cex["cex_areg"]), "breg": hv.parse_c_int(cex["cex_breg"]), "oreg": hv.parse_c_int(cex["cex_oreg"])}
+                except (KeyError, ValueError):
+                    st = {"reset": True, "pc": 0x12345, "areg": 0xDEADBEEF, "breg": 0xCAFEF00D, "oreg": 0x70}
             p = chk.replay_path(f["name"])
             if st is not None:
                 rr = replay_state(exe, st)
